@@ -29,8 +29,10 @@ class P(b1.Plugin):
                     req = {"ignore": True, "method": gen.METHOD_LEAVES.index(f.ty)}
                 f.req["PartialEq"] = req
                 carrier = "Eq" if (with_eq and rng.random() < 0.4) else "PartialEq"
-                f.attr_src = gen.render_field_cmp_attr(rng, carrier, req, "eq_m_%s" % f.ty)
+                f.metas = gen.render_field_cmp_attr(rng, carrier, req, "eq_m_%s" % f.ty)
         self.rng = rng
+        noise = [t for t in ("Debug", "Hash") if rng.random() < 0.35]
+        gen.finalize_attrs(rng, td, noise)
         return td
 
     def nontrivial(self, td):
